@@ -42,7 +42,7 @@ def generate(seed, tier):
     for i in range(NCASES[tier]):
         cs = K.harness_seed(seed, ID, i)
         rng = random.Random(cs)
-        profile = rng.choice(["discrete", "mixed", "nested", "nested", "guarded", "multiassign", "continuous", "linear"])
+        profile = rng.choice(["discrete", "mixed", "nested", "nested", "guarded", "multiassign", "continuous", "linear", "delay", "counter"])
         prog, feats, meta = G.generate(cs, profile)
         # (4) all variables initialised
         init_assigned = set(assigned_vars(prog.init))
